@@ -209,6 +209,12 @@ T_C07 = T("C07", "pos_monotone_read", "pos_monotone_writeTo", "source_unchanged_
           "bad_magic_read", "bad_magic_writeTo", "skippable_transparent", "skippable_alone")
 T_C12 = T("C12", "c12", kind="full under the layout Go guarantees, len(dst) < 2^63, and no dictionary or &dst >= 65536")
 T_C20 = T("C20", "flags_effect", "flags_effect_rest", "roundtrip")
+T_C17 = T("C17", "wrun_wf", "state_inv", "closed_write", "closed_readFrom", "closed_close", "closed_flush", "close_closes", "error_sticky", "error_sticky_strong",
+          "apply_only_new", "options_fixed", "reset_keeps_options", "reset_obsEq", "obsEq_step", "reset_like_new", "flush_empties",
+          "reader_closed_read", "reader_eof_closes_partial", "reader_eof_new", "reader_eof_sticky", "reader_error_sticky", "reader_reset_like_new",
+          "reader_reset_obsEq", "robsEq_step", "reader_reset_equiv") \
+    + T("C17", "close_closes_partial", "error_sticky_partial", "apply_only_new_partial", kind="for every well-formed state (every reachable state is well-formed: wrun_wf)") \
+    + T("C17", "close_closes_false", "error_sticky_false", "apply_only_new_false", "reader_eof_closes_false", kind="counterexample on a state no call sequence reaches / on the empty stream (see DESIGN.md)")
 T_C09 = T("C09", "idx_valid", "c09_writer", "c09_writer_fast", "c09_clean") + T("C09full", "hcCorrect", "c09_writer_all", "c09_clean_all", ns="C09")
 T_C19 = T("C19", "c19_accept_iff", "c19_bad_checksum", "c19_bad_block_size", "c19_size", "c19_bad_magic", "c19_spec", "c19_reader_size")
 
@@ -312,7 +318,7 @@ PROPS = {
     "C09": dict(runs=[FW("fw", judge=j_c09)], theorems=T_C09),
     "C15": dict(runs=[FW("fwfail", judge=j_c15w), FR("frfail", judge=j_c15r)], theorems=T_C15),
     "C16": dict(runs=[FR("fr", judge=j_c16)], theorems=T("C16", "c16_writeTo", "c16_read", "c16_read_no_error", kind=_K64)),
-    "C17": dict(runs=[FW("fwlife", judge=j_c17w), FR("fr", judge=j_c17r)], theorems=[]),
+    "C17": dict(runs=[FW("fwlife", judge=j_c17w), FR("fr", judge=j_c17r)], theorems=T_C17),
     "C01": dict(runs=[dict(CMP, judge=j_c01)], theorems=T_FAST + T_HC),
     "C03": dict(runs=[dict(DEC_ASM, judge=j_c03), dict(DEC_GO, judge=j_c03), dict(GUARD_ASM, judge=j_c03), dict(GUARD_GO, judge=j_c03)], theorems=T("C04go", "c03_go") + T("C03asm", "c03_asm")),
     "C04": dict(runs=[dict(DEC_ASM, judge=j_c04), dict(DEC_GO, judge=j_c04)], theorems=T_GO + T_ASM),
